@@ -61,7 +61,9 @@ func safeName(n string) bool {
 	return true
 }
 
-var adversarial = []string{"a", "aa", "a_", "A", "aA", "Aa", "a0", "_", "__", "_a", "_A", "a__", "aaa", "aaaaaaaa", "aaaaaaaaa", "x", "X", "xX", "Xx", "x_", "z9", "Z9", "l", "I", "O0", "o0"}
+var adversarial = []string{"a", "aa", "a_", "A", "aA", "Aa", "a0", "_", "__", "_a", "_A", "a__", "aaa", "aaaaaaaa", "aaaaaaaaa", "x", "X", "xX", "Xx", "x_", "z9", "Z9", "l", "I", "O0", "o0",
+	// fragments of keywords that can stand next to a name (BYTE/WORD/DWORD/SHORT/NEAR/FAR, EQU, GLOBAL, BITS)
+	"E", "T", "Y", "YT", "TE", "W", "RD", "WO", "O", "R", "D", "B", "H", "HO", "EA", "AR", "QU", "U", "G", "TS", "S"}
 
 // genRenaming draws an injective renaming of names into safe identifiers,
 // biased towards adversarial families (prefixes/suffixes of one another, case twins).
